@@ -48,7 +48,46 @@ def _rows(snap, hist, label, scale, rule):
     return out
 
 
+def run_rows_case(spec):
+    """every date of a finished backtest: recorded value = recorded cash + children's recorded values,
+    security value = position x price x multiplier, from the recorded rows"""
+    from .. import runcheck
+
+    res = runcheck.execute(spec)
+    if res["status"] == "guard":
+        return ("refused", [], 0)
+    if res["status"] == "crash":
+        return ("crash", [{"rule": "crash", "observed": res["err"]}], 0)
+    h = res["hist"]
+    scale = float(spec.get("capital", 1e6))
+    viols = []
+    for name, d in h.items():
+        labels = d["values"][0]
+        if d["__kind__"] == "S":
+            kids = [k for k in h if h[k]["__parent__"] == name]
+            for i, lab in enumerate(labels):
+                tot = d["cash"][1][i]
+                for k in kids:
+                    kl = h[k]["values"][0]
+                    if lab in kl:
+                        tot += h[k]["values"][1][kl.index(lab)]
+                if not ref.near(d["values"][1][i], tot, scale):
+                    viols.append({"rule": "row_strategy_value", "expected": {"node": name, "date": lab, "value": tot}, "observed": d["values"][1][i]})
+                    break
+        else:
+            for i, lab in enumerate(labels):
+                p = d["prices"][1][i]
+                pos = d["positions"][1][i]
+                exp = 0.0 if (p != p and pos == 0.0) else pos * p * d["__mult__"]
+                if not ref.near(d["values"][1][i], exp, scale):
+                    viols.append({"rule": "row_security_value", "expected": {"node": name, "date": lab, "value": exp}, "observed": d["values"][1][i]})
+                    break
+    return ("ok", viols[:4], len(res["trades"]))
+
+
 def replay(case):
+    if case.get("driver") == "run":
+        return run_rows_case(case["spec"])[1]
     return bfs.replay_case(MOD, case)
 
 
@@ -108,5 +147,19 @@ def run(ctx):
             else:
                 depth_k = depth
             bfs.search(ctx, kind, MOD, spec, ops, depth_k, label="%s/%s" % (label, kind))
+    from .. import runfam as R
+
+    fam = R.family("quick", ctx.seed) if ctx.tier == "quick" else R.family("thorough", ctx.seed)[::5]
+    for kind in kinds:
+        use = fam if kind == "py" else fam[::3]
+        for spec, (status, viols, ntr) in ctx.run(kind, MOD, "run_rows_case", use, chunksize=4):
+            ctx.add(transitions=1, traces_validated_against_impl=1, evaluations=1)
+            if status == "ok":
+                ctx.add(states=1)
+                if ntr:
+                    ctx.nontrivial_count += 1
+            for v in viols:
+                ctx.violation(dict(v, build=kind, module=MOD, case={"driver": "run", "spec": spec}))
+    ctx.extra["run_family_rows"] = len(fam)
     if ctx.cov["states"] < 500:
         ctx.violation({"rule": "vacuity", "observed": "only %d states could be observed" % ctx.cov["states"], "expected": ">= 500"})
